@@ -13,7 +13,7 @@ import (
 func init() {
 	register(&Prop{
 		ID:             "C01",
-		Pkgs:           []string{"consensus"},
+		Pkgs:           []string{"consensus", "block"},
 		Run:            runC01,
 		MinObligations: 60,
 		Technique:      "static analysis: who-may-call / who-may-write tables over the resolved program (finalization, commit step, lock state, step variable), guard dominance with path alternatives at every vote, lock, unlock, commit and proposal-adoption site, closure guards joined with the guards of the closure's creation site, must-pass-through of the lock record before the precommit",
@@ -253,7 +253,7 @@ func runC01(c *Ctx) {
 
 	// the +2/3 decisions all of this rests on: tally bookkeeping and threshold form (rules of C04)
 	{
-		sub := &Ctx{Prop: c.Prop, Tier: c.Tier, L: c.L}
+		sub := &Ctx{Prop: c.Prop, Tier: c.Tier, L: c.L, Sub: true}
 		runC04(sub)
 		for _, o := range sub.obs {
 			o2 := *o
@@ -261,6 +261,83 @@ func runC01(c *Ctx) {
 			c.obs = append(c.obs, &o2)
 		}
 		c.callSites += sub.callSites
+	}
+
+	// what a node accepts as proof that others finalized: commit-vote verification, fast-sync door,
+	// validator-set refresh (rules of C05)
+	if !c.Sub {
+		sub := &Ctx{Prop: c.Prop, Tier: c.Tier, L: c.L, Sub: true}
+		runC05(sub)
+		for _, o := range sub.obs {
+			if strings.HasPrefix(o.Rule, "C05.consensus-door") {
+				continue
+			}
+			o2 := *o
+			o2.Rule = "C01.commit-proof/" + strings.TrimPrefix(o.Rule, "C05.")
+			c.obs = append(c.obs, &o2)
+		}
+		c.callSites += sub.callSites
+	}
+	// the block manager finalizes only a child of the last finalized block
+	if fz := c.mustFn("block", "manager", "Finalize"); fz != nil {
+		n := 0
+		for _, cs := range c.calls(fz, byCallee("manager).finalize")) {
+			n++
+			c.requireAt("C01.finalize-chain", "manager.Finalize hands a block on to finalize", cs.Instr, wSame("its parent is the last finalized block", `\.parent$`, `^\$r\.finalized$`))
+			c.requireAt("C01.finalize-chain", "manager.Finalize hands a block on to finalize", cs.Instr, wDiffer("the block is known", `^\$r\.nmap\[`, `^nil$`))
+		}
+		if n != 1 {
+			c.undecided("C01.finalize-chain", "manager.Finalize", fz.Pos(), fmt.Sprintf("expected one finalize call, found %d", n))
+		}
+	}
+	// lock WAL replay: every logged polka for a block re-targets the recovered lock and its round
+	if al := c.mustFn("consensus", "consensus", "applyLockWAL"); al != nil {
+		n := 0
+		for _, cs := range c.calls(al, byCallee("consensus.NewPartSetFromID")) {
+			var src ssa.Instruction
+			for _, q := range c.calls(al, byMethod("getOverTwoThirdsPartSetID")) {
+				if dominatesInstr(q.Instr, cs.Instr) {
+					src = q.Instr
+				}
+			}
+			if src == nil {
+				continue
+			}
+			n++
+			base := map[string]bool{}
+			for _, g := range guardsAt(src) {
+				base[g.String()] = true
+			}
+			extra := ""
+			for _, alt := range altGuards(cs.Instr.Block()) {
+				for _, g := range alt {
+					if base[g.String()] || strings.Contains(render(g.Cond), "getOverTwoThirdsPartSetID()") {
+						continue
+					}
+					extra = g.String()
+				}
+			}
+			c.check(extra == "", "C01.lock-replay", "applyLockWAL re-targets the recovered lock for every logged polka of a block", cs.Pos(), "only `ok && psid != nil`", "the recovered lock is updated only under "+extra+": a re-lock on the same block in a later round is replayed with the earlier lock round, and a stale polka from a round in between then releases the lock")
+			// the lock round recorded is the polka's round
+			okR := false
+			for _, b := range al.Blocks {
+				for _, in := range b.Instrs {
+					phi, ok := in.(*ssa.Phi)
+					if !ok || phi.Comment != "bpsetLockRound" {
+						continue
+					}
+					for k, e := range phi.Edges {
+						if phi.Block().Preds[k] == cs.Instr.Block() && strings.HasSuffix(render(e), ".Round") {
+							okR = true
+						}
+					}
+				}
+			}
+			c.check(okR, "C01.lock-replay", "the recovered lock round is the round of that polka", cs.Pos(), "bpsetLockRound = vmsg.Round", "the lock round is not taken from the polka record")
+		}
+		if n != 1 {
+			c.undecided("C01.lock-replay", "applyLockWAL polka handling", al.Pos(), fmt.Sprintf("expected one site, found %d", n))
+		}
 	}
 
 	// ------------------------------------------------------------ lock-writers
